@@ -10,6 +10,8 @@ RULE = ("DrawTarget calls with arbitrary coordinates: draw_iter streams mixing i
 TRUSTED = ["Oracle/Controller.v, Oracle/DrawSpec.v"]
 ASSUMPTIONS = ["rectangles valid for embedded-graphics: top_left + size representable in i32 (its own arithmetic panics otherwise)"]
 PER_SHARD = 40
+CASE_TYPE = "(lcase * lout)"
+IMPORTS = "Require Import Corr.L2 Corr.DrawL."
 I32MIN, I32MAX = -2**31, 2**31 - 1
 
 
@@ -106,9 +108,16 @@ def gen(rng, tier, info, ifaces=(0, 1, 2, 7)):
         pc["tags"] = ["rot%d%s" % (o["rot"], "m" if o["mir"] else ""), "batch" if pc["batch"] else "nobatch", pc["md"]] + \
                      ["op:" + op[0] for _, op in pc["ops"]]
         pc["nontrivial"] = any(has_oob(op, lw, lh) for _, op in pc["ops"])
-        cases.append(vlib.pcase(pc))
+        cases.append(drawgen.wrap_l(vlib.pcase(pc), False))
+    # the same kind of calls below the real transports (small panels; pin-level logs decoded in Coq)
+    for k in range(n // 5):
+        pc, m, lw, lh, cmax = drawgen.l2_config(rng, info)
+        pc["ops"] = [(-1, op_any(rng, lw, lh, cmax, True)) for _ in range(rng.range(1, 3))]
+        pc["tags"] = ["iface%d" % pc["iface"]] + ["op:" + op[0] for _, op in pc["ops"]]
+        pc["nontrivial"] = any(has_oob(op, lw, lh) for _, op in pc["ops"])
+        cases.append(drawgen.wrap_l(vlib.pcase(pc), True))
     return cases
 
 
-def shrink(case):
-    return drawgen.shrink_prog(case)
+wrap_impl = drawgen.wrap_impl_l
+shrink = drawgen.shrink_l
